@@ -24,11 +24,16 @@ AmtEs == { AE("IBC", "channel-0", "CCTP", "0", "uusdc", 10, 9), AE("IBC", "chann
            AE("IBC", "channel-0", "CCTP", "0", "", 1, 1), AE("NIL", "", "CCTP", "0", "uusdc", 1, 1),
            AE("IBC", "channel-0", "NIL", "", "uusdc", 1, 1), AE("IBC", "bad", "CCTP", "0", "uusdc", 1, 1),
            AE("IBC", "channel-0", "UNSUPPORTED", "0", "uusdc", 1, 1),
-           AE("IBC", "channel-0", "INT", "noble:grand-1", "uusdc", 2, 1), AE("INT", "a:b:c", "INT", "x", "ustake", 3, 3) }
+           AE("IBC", "channel-0", "INT", "noble:grand-1", "uusdc", 2, 1), AE("INT", "a:b:c", "INT", "x", "ustake", 3, 3),
+           \* totals at the maximum of the type (BIG stands for 2^256-1): the next transfer on the route cannot be added
+           AE("IBC", "channel-0", "CCTP", "0", "uusdc", BIG, 7), AE("IBC", "channel-0", "CCTP", "0", "uusdc", 9, BIG),
+           AE("IBC", "channel-0", "HYP", "1", "uusdc", BIG, BIG) }
 CE(sp, sc, dp, dc, n) == [sp |-> sp, sc |-> sc, dp |-> dp, dc |-> dc, n |-> n]
 CntEs == { CE("IBC", "channel-0", "CCTP", "0", 3), CE("IBC", "channel-0", "CCTP", "0", 1), CE("IBC", "channel-1", "INT", "noble", 2),
            CE("IBC", "channel-0", "CCTP", "0", 0), CE("NIL", "", "CCTP", "0", 1), CE("IBC", "channel-0", "HYP", "bad", 1),
-           CE("IBC", "channel-1", "INT", "noble:grand-1", 4) }
+           CE("IBC", "channel-1", "INT", "noble:grand-1", 4),
+           \* counts at 2^64-1 (BIG): the next transfer on the route cannot be counted
+           CE("IBC", "channel-0", "CCTP", "0", BIG), CE("IBC", "channel-0", "HYP", "1", BIG) }
 
 Docs == { [DefG EXCEPT !.pp = x] : x \in PPs } \cup { [DefG EXCEPT !.pcc = x] : x \in PCCs } \cup { [DefG EXCEPT !.pa = x] : x \in PAs }
         \cup { [DefG EXCEPT !.amts = x] : x \in Lists2(AmtEs) } \cup { [DefG EXCEPT !.cnts = x] : x \in Lists2(CntEs) }
